@@ -262,6 +262,32 @@ func c19Controllers(c *ctxT, rng *rand.Rand, t c19IT, id string, cloud *c19ECS, 
 		}
 		return true
 	}
+	// in a fifth of the cases the node first joined as another instance type and was resized in place (same
+	// instance id, only the instance-type label changes): what is advertised must follow the new type
+	if rng.Intn(5) == 0 {
+		prev := genC19IT(rng)
+		prevID := id + ".before-resize"
+		cloud.mu.Lock()
+		cloud.types[prevID] = prev.ecs(prevID)
+		cloud.mu.Unlock()
+		was := &corev1.Node{}
+		if err := cl.Get(ctx, client.ObjectKey{Name: "node-1"}, was); err == nil {
+			was.Labels[corev1.LabelInstanceTypeStable] = prevID
+			_ = cl.Update(ctx, was)
+		}
+		if !step("controller/before-resize", func() error { _, err := ctl.Reconcile(ctx, req); return err }) {
+			return
+		}
+		if !step("agent/before-resize", func() error { _, err := agent.Reconcile(ctx, req); return err }) {
+			return
+		}
+		if err := cl.Get(ctx, client.ObjectKey{Name: "node-1"}, was); err == nil {
+			was.Labels[corev1.LabelInstanceTypeStable] = id
+			_ = cl.Update(ctx, was)
+		}
+		rep["resized_from"] = prev
+		r.Count("in_place_resize_cases", 1)
+	}
 	if !step("controller", func() error { _, err := ctl.Reconcile(ctx, req); return err }) {
 		return
 	}
